@@ -37,7 +37,27 @@ def covers(tm, fl, dst, real, cnt):
     return False
 
 
+def check_other_writes(ck, tm, label, v):
+    """Stores through raw pointers / other raw-write primitives (not the designated copy): they modify memory the rules
+    cannot size, so each must be followed by a flush that covers at least its address."""
+    for ev in v.trace:
+        if ev.kind not in ("raw_write_other", "raw_store"):
+            continue
+        addr = None
+        if ev.kind == "raw_store":
+            addr = ev.extra.get("addr")
+        elif ev.args and isinstance(ev.args[0], Int):
+            addr = ev.args[0]
+        later = [e for e in v.trace[ev.idx + 1:] if e.kind == "ffi" and e.name == FLUSH[tm.os]]
+        one = int_const(1, tm.ptr_bits)
+        cov = [e for e in later if addr is not None and covers(tm, e, addr, addr, one)]
+        ck.ob("R17.2", "%s/raw-write-after-last-flush/%s" % (tm.os, short(ev.name)), tm.target, bool(cov),
+              "%s: %s at %s is %s by a flush covering it (%d later flush call(s))" % (
+                  label, ev.name, fmt(addr.e, 4) if addr is not None else "an unknown address", "followed" if cov else "NOT followed", len(later)), where(ev))
+
+
 def check_variant(ck, tm, label, v, writes):
+    check_other_writes(ck, tm, label, v)
     for ev, role, dst, real, alias in writes:
         cnt = ev.extra["count"]
         later = [e for e in v.trace[ev.idx + 1:] if e.kind == "ffi" and e.name == FLUSH[tm.os]]
